@@ -128,6 +128,14 @@ func (p *procWrap) ProcessBlock(ctx context.Context, b sync.Block) (err error) {
 	return p.e.gated(ctx, "drv", fmt.Sprintf("process:%d", b.Num), "process", func(fail bool) (tr.M, error) {
 		m := tr.M{"n": b.Num, "v": p.e.c.nameLocked(b.Num, b.Hash), "evs": eventIDs(b.Events)}
 		if fail {
+			// a store that can be made to fail for real fails for real (a storage fault inside its transaction)
+			if fs, ok := p.in.(interface {
+				ProcessBlockFaulty(ctx context.Context, b sync.Block) error
+			}); ok {
+				err := fs.ProcessBlockFaulty(ctx, b)
+				m["ok"], m["err"], m["real"] = err == nil, errStr(err), true
+				return m, err
+			}
 			m["ok"], m["err"] = false, "injected"
 			return m, errInjected
 		}
